@@ -57,7 +57,8 @@ func c10HostProps(c *Ctx) {
 			}
 			n++
 			bad := ""
-			ds := deepDefs(props, scope)
+			// through helper results and parameters, and through the fields of a struct that is local to the call
+			ds := resolveThroughLocals(props, scope)
 			for _, d := range ds {
 				switch d.(type) {
 				case *ssa.MakeMap:
